@@ -8,6 +8,7 @@ package main
 
 import (
 	"fmt"
+	"os"
 	"sort"
 	"strings"
 
@@ -170,6 +171,23 @@ func (w *world) applyTopology(t *topo) {
 		panic("harness: topology text rejected: " + err.Error())
 	}
 	w.s.L.TickNoProbe()
+	if os.Getenv("VERIF_TOPO_DIAG") != "" {
+		want := map[string]bool{}
+		for _, n := range t.nodes {
+			if n.present {
+				want[n.addr] = true
+			}
+		}
+		addrs, _ := core.VerifPools()
+		st := core.VerifClusterDump()
+		if len(addrs) != len(want) {
+			var sv []string
+			for _, n := range st.Servers {
+				sv = append(sv, n.Addr)
+			}
+			fmt.Fprintf(os.Stderr, "TOPO-DIAG: pools %v, adopted servers %v, wanted %v, changed flag %v\ntext:\n%s\n", addrs, sv, want, st.Changed, t.text())
+		}
+	}
 	w.record(t.event())
 }
 
